@@ -24,7 +24,7 @@ EXHAUSTIVE_SUBDOMAINS = ["every NL band 1..59 x hemisphere x newer parity (direc
 ASSUMPTIONS = ["positions whose recovered latitude is within 1e-9 deg of an NL transition are counted as ambiguous, not judged",
                "equal timestamps accept either frame's position"]
 REQUIRED = ["none_result", "value_result", "same_parity", "south_wrap", "lon_wrap", "newer_even", "newer_odd",
-            "swapped_args", "datetime_ts", "aware_datetime_ts", "dst_change_ts", "position_called_with_reference"] + ["band%d_%s" % (nl, h) for nl in range(1, 60) for h in "NS"]
+            "swapped_args", "datetime_ts", "aware_datetime_ts", "dst_change_ts", "datetime_ts_at_the_ends_of_the_range", "position_called_with_reference"] + ["band%d_%s" % (nl, h) for nl in range(1, 60) for h in "NS"]
 
 
 def in_window(*rl):
@@ -77,6 +77,19 @@ def m_global(ctx, case):
     elif case.get("dt"):
         base = datetime.datetime(2024, 1, 1)
         T0, T1 = base + datetime.timedelta(seconds=te), base + datetime.timedelta(seconds=to)
+        if case["addr"] % 4 == 1:
+            # a relative clock: elapsed seconds counted from datetime.min (or down from datetime.max) - legal datetime stamps
+            # at the very ends of the representable range, where timestamp() / astimezone() conversions overflow
+            try:
+                lo_s, hi_s = min(te, to), max(te, to)
+                if case["addr"] % 8 == 1:
+                    b_ = datetime.datetime.min + datetime.timedelta(seconds=max(0.0, -lo_s))
+                else:
+                    b_ = datetime.datetime.max - datetime.timedelta(seconds=max(0.0, hi_s))
+                T0, T1 = b_ + datetime.timedelta(seconds=te), b_ + datetime.timedelta(seconds=to)
+                ctx.hit("datetime_ts_at_the_ends_of_the_range")
+            except OverflowError:
+                pass
         ctx.hit("datetime_ts")
     else:
         T0, T1 = te, to
